@@ -2056,7 +2056,9 @@ func runC05(ctx *Ctx) *Result {
 			"(stream device-resume; with an iptables change still ahead: cut `route` of stream ipt-resume), or at `which iptables-restore` (after the routes, before iptables), at chmod / at the restore file (before it is loaded), " +
 			"behind the load or at mv (loaded, start-up file not yet replaced), behind mv (between the two start-up copies) (stream ipt-resume); the state the host is left in is " +
 			"computed by the Lean specification; a second undisturbed approve must succeed and converge (routes: strict kernel table; iptables: the target's rule set loaded) " +
-			"and a further compare must report nothing; the start-up files are tracked as well. non-trivial = the plan had at least one changing command"
+			"and a further compare must report nothing and leave the host alone; the host has a file system (scp, chmod, execution of the rule file, mv act on it; further cuts: the scp of the rule file / of the routing file fails) and " +
+			"after every successful approve the specification judges /etc/network/packet-filter (iptables-restore into an empty kernel = the target) and /etc/network/routing (set of routes = the target). " +
+			"non-trivial = the plan had at least one changing command"
 		for i := 0; i < ctx.N(16, 600); i++ {
 			rng := base.Fork()
 			c := &c05Case{Abstract: true, Stream: "device-resume"}
